@@ -970,8 +970,23 @@ binary_add_fns: dict[str, BinaryCallable] = {
     "-": lambda x, y: x - y,
 }
 
+def binary_round_fn(
+    x: Union[int, float], y: Union[int, float]
+) -> Union[int, float]:
+    # PHP's round(): halves are rounded away from zero (Python's round()
+    # rounds them to even) and the number of digits is truncated
+    digits = math.trunc(y)
+    if digits < 0:
+        unit = 10**-digits
+        rounded = math.floor(abs(x) / unit + 0.5) * unit
+    else:
+        unit = 10**digits
+        rounded = math.floor(abs(x) * unit + 0.5) / unit
+    return -rounded if x < 0 else rounded
+
+
 binary_round_fns: dict[str, BinaryCallable] = {
-    "round": round,  # type:ignore
+    "round": binary_round_fn,
 }
 
 binary_cmp_fns: dict[str, BinaryCallable] = {
